@@ -78,8 +78,8 @@ func addItem(c godi.Collection, it *RItem) error {
 		svc, err := serviceValue(&it.RegCfg)
 		if err != nil {
 			fmt.Fprintln(os.Stderr, "registry: bad item:", err)
-			out.Flush()
-			os.Exit(2)
+			flushOut()
+			os.Exit(4)
 		}
 		return addReg(c, &it.RegCfg, svc)
 	case "nameandgroup":
@@ -105,8 +105,8 @@ func addItem(c godi.Collection, it *RItem) error {
 		return add(outProvCtor)
 	}
 	fmt.Fprintln(os.Stderr, "registry: unknown bad kind", it.Bad)
-	out.Flush()
-	os.Exit(2)
+	flushOut()
+	os.Exit(4)
 	return nil
 }
 
@@ -286,8 +286,8 @@ func registryScenario(sc *RScenario, raw []byte, run int) {
 		it, ok := sc.Items[id]
 		if !ok {
 			fmt.Fprintln(os.Stderr, "registry: unknown item", id)
-			out.Flush()
-			os.Exit(2)
+			flushOut()
+			os.Exit(4)
 		}
 		it.RegCfg.ID = id
 		return &it
@@ -415,11 +415,11 @@ func registryMain(args []string) {
 		raw := append([]byte(nil), sc.Bytes()...)
 		if err := json.Unmarshal(raw, &s); err != nil {
 			fmt.Fprintln(os.Stderr, "bad scenario:", err)
-			out.Flush()
-			os.Exit(2)
+			flushOut()
+			os.Exit(4)
 		}
 		registryScenario(&s, raw, run)
-		out.Flush()
+		flushOut()
 	}
 }
 
